@@ -660,9 +660,49 @@ func genHandler(t *rapid.T, depth int) handler {
 				b = append(b, node{name: "default_sni", args: []string{"example.com"}})
 				cp["default_sni"] = "example.com"
 			}
-			if rapid.Bool().Draw(t, "cpProtocols") {
-				b = append(b, node{name: "protocols", args: []string{"tls1.2", "tls1.3"}})
-				cp["protocol_min"], cp["protocol_max"] = "tls1.2", "tls1.3"
+			switch rapid.IntRange(0, 3).Draw(t, "cpProtocols") {
+			case 1: // protocols <min> [<max>]: both given
+				pair := [][2]string{{"tls1.2", "tls1.3"}, {"tls1.2", "tls1.2"}, {"tls1.3", "tls1.3"}}[rapid.IntRange(0, 2).Draw(t, "cpProtoPair")]
+				b = append(b, node{name: "protocols", args: []string{pair[0], pair[1]}})
+				cp["protocol_min"], cp["protocol_max"] = pair[0], pair[1]
+			case 2: // only the minimum: nothing is said about a maximum
+				v := []string{"tls1.2", "tls1.3"}[rapid.IntRange(0, 1).Draw(t, "cpProtoMin")]
+				b = append(b, node{name: "protocols", args: []string{v}})
+				cp["protocol_min"] = v
+			}
+			if rapid.IntRange(0, 2).Draw(t, "cpCiphers") == 0 {
+				c := someOf(t, "cpCiphersV", 1, "TLS_ECDHE_RSA_WITH_AES_128_GCM_SHA256", "TLS_ECDHE_ECDSA_WITH_AES_256_GCM_SHA384", "TLS_ECDHE_ECDSA_WITH_CHACHA20_POLY1305_SHA256")
+				b = append(b, node{name: "ciphers", args: c})
+				cp["cipher_suites"] = strs(c...)
+			}
+			if rapid.IntRange(0, 3).Draw(t, "cpFallbackSNI") == 0 {
+				b = append(b, node{name: "fallback_sni", args: []string{"fallback.example.com"}})
+				cp["fallback_sni"] = "fallback.example.com"
+			}
+			if rapid.IntRange(0, 5).Draw(t, "cpDrop") == 0 {
+				b = append(b, node{name: "drop"})
+				cp["drop"] = true
+			}
+			if rapid.IntRange(0, 3).Draw(t, "cpCertSelection") == 0 {
+				sel := obj{}
+				var sb []node
+				if rapid.Bool().Draw(t, "csAny") {
+					v := someOf(t, "csAnyV", 1, "verif", "blue", "green")
+					sb = append(sb, node{name: "any_tag", args: v})
+					sel["any_tag"] = strs(v...)
+				}
+				if rapid.Bool().Draw(t, "csAll") {
+					v := someOf(t, "csAllV", 1, "verif", "prod")
+					sb = append(sb, node{name: "all_tags", args: v})
+					sel["all_tags"] = strs(v...)
+				}
+				if rapid.Bool().Draw(t, "csOrg") {
+					v := someOf(t, "csOrgV", 1, "Example", "Verif")
+					sb = append(sb, node{name: "subject_organization", args: v})
+					sel["subject_organization"] = strs(v...)
+				}
+				b = append(b, node{name: "cert_selection", block: sb, forceBlock: true})
+				cp["certificate_selection"] = sel
 			}
 			if rapid.Bool().Draw(t, "cpCurves") {
 				c := someOf(t, "cpCurvesV", 1, "x25519", "secp256r1")
